@@ -250,7 +250,10 @@ func (c *Ctx) SEC(rule string) []report.Obligation {
 		out = append(out, bad(rule+"-4", "secretConfigDecoderHook :: deletes the carrier key", c.P.Pos(hook.Pos()),
 			"the carrier key "+xvalue+" is not deleted from the extension map: the value stays in Extensions and is rendered with them"))
 	default:
-		out = append(out, verdict(prog.InstrDominates(store, del) || prog.InstrDominates(del, store), rule+"-4", "secretConfigDecoderHook :: deletes the carrier key", c.P.InstrPos(del),
+		// every way through the move also deletes: the delete comes first, or it is met on every path from the move
+		onPath := prog.InstrDominates(del, store) || (store.Block() == del.Block() && prog.InstrIndex(store) < prog.InstrIndex(del)) ||
+			(store.Block() != del.Block() && prog.Info(hook).PostDominates(del.Block(), store.Block()))
+		out = append(out, verdict(onPath, rule+"-4", "secretConfigDecoderHook :: deletes the carrier key", c.P.InstrPos(del),
 			"the key is deleted on the path that moves its value to Content", "the delete is not on the same path as the move"))
 	}
 	return out
@@ -536,6 +539,53 @@ func (c *Ctx) CARRIER(rule string) []report.Obligation {
 	}
 	if n == 0 {
 		out = append(out, bad(rule, "secretConfigDecoderHook :: the carrier is removed whenever it is there", c.P.Pos(f.Pos()), "no delete of the carrier key found in the hook"))
+	}
+	// SEC-9: the carried value was resolved from `environment`; it becomes the Content only while the resource still
+	// has that attribute (an override file can reset it and give the resource a file): the store into "Content"
+	// depends on the `environment` entry of the mapping being decoded.
+	m := 0
+	for _, b := range f.Blocks {
+		for _, in := range b.Instrs {
+			mu, ok := in.(*ssa.MapUpdate)
+			if !ok {
+				continue
+			}
+			if k, _ := prog.ConstString(stripMI(mu.Key)); !strings.EqualFold(k, "content") {
+				continue
+			}
+			m++
+			depends := false
+			for _, d := range prog.Info(f).TransitiveControlDeps(b) {
+				iff, ok := d.Branch.Instrs[len(d.Branch.Instrs)-1].(*ssa.If)
+				if !ok {
+					continue
+				}
+				seen := map[ssa.Value]bool{}
+				var walk func(v ssa.Value, depth int)
+				walk = func(v ssa.Value, depth int) {
+					if v == nil || depth == 0 || seen[v] {
+						return
+					}
+					seen[v] = true
+					if lk, isL := v.(*ssa.Lookup); isL {
+						if k, isC := prog.ConstString(lk.Index); isC && k == "environment" {
+							depends = true
+						}
+					}
+					if in, isI := v.(ssa.Instruction); isI {
+						for _, op := range in.Operands(nil) {
+							walk(*op, depth-1)
+						}
+					}
+				}
+				walk(iff.Cond, 6)
+			}
+			out = append(out, verdict(depends, rule+"b", "secretConfigDecoderHook :: the carried value becomes the content only while `environment` is declared", c.P.InstrPos(mu),
+				"the store depends on the `environment` entry of the resource", "the value resolved from `environment` is stored as the content whether or not the resource still declares `environment`: after an override resets it (and gives a file) the old variable's value is the content of the resource, and a config renders it"))
+		}
+	}
+	if m == 0 {
+		out = append(out, bad(rule+"b", "secretConfigDecoderHook :: the carried value becomes the content only while `environment` is declared", c.P.Pos(f.Pos()), "no store into Content found in the hook"))
 	}
 	return out
 }
